@@ -161,14 +161,26 @@ mods (int x, int y) IMATH_NOEXCEPT
 IMATH_HOSTDEVICE constexpr inline int
 divp (int x, int y) IMATH_NOEXCEPT
 {
+    //
+    // For negative x, floor (x/y) is written in terms of -1 - x, which
+    // always fits an int (y - 1 - x does not when |y| is large).
+    //
+
     return (x >= 0) ? ((y >= 0) ? (x / y) : -(x / -y))
-                    : ((y >= 0) ? -((y - 1 - x) / y) : ((-y - 1 - x) / -y));
+                    : ((y >= 0) ? -1 - ((-1 - x) / y) : 1 + ((-1 - x) / -y));
 }
 
 IMATH_HOSTDEVICE constexpr inline int
 modp (int x, int y) IMATH_NOEXCEPT
 {
-    return x - y * divp (x, y);
+    //
+    // x - y * divp(x,y), without forming the product (which need not
+    // fit an int although the remainder does).
+    //
+
+    return (x >= 0) ? ((y >= 0) ? (x % y) : (x % -y))
+                    : ((y >= 0) ? (y - 1 - ((-1 - x) % y))
+                                : (-y - 1 - ((-1 - x) % -y)));
 }
 
 //----------------------------------------------------------
